@@ -22,12 +22,16 @@ pub trait CmdFs
     fn write(&mut self, path: &str, data: &[u8]) -> bool;
     fn chmodx(&mut self, path: &str) -> bool;
     fn exists(&mut self, path: &str) -> bool;
+    /// `cp -p`: give `to` the modification time of `from` (file systems without times: nothing to do)
+    fn copy_mtime(&mut self, _from: &str, _to: &str) {}
 }
 
 #[derive(Clone, Debug, PartialEq, Eq, Hash, PartialOrd, Ord)]
 pub enum Instr
 {
     EmitCopy { t: String, src: String },
+    /// like EmitCopy, but the target also gets the source's modification time (`cp -p`)
+    EmitCopyP { t: String, src: String },
     EmitConst { t: String, tag: String },
     EmitMix { t: String, tag: String, srcs: Vec<String> },
     ChmodX { t: String },
@@ -48,6 +52,7 @@ impl Instr
         match self
         {
             Instr::EmitCopy { t, src } => format!("emit {} copy {}", t, src),
+            Instr::EmitCopyP { t, src } => format!("emit {} copyp {}", t, src),
             Instr::EmitConst { t, tag } => format!("emit {} const {}", t, tag),
             Instr::EmitMix { t, tag, srcs } =>
             {
@@ -73,7 +78,7 @@ impl Instr
     {
         match self
         {
-            Instr::EmitCopy { t, .. } | Instr::EmitConst { t, .. } | Instr::EmitMix { t, .. } | Instr::ChmodX { t } => Some(t),
+            Instr::EmitCopy { t, .. } | Instr::EmitCopyP { t, .. } | Instr::EmitConst { t, .. } | Instr::EmitMix { t, .. } | Instr::ChmodX { t } => Some(t),
             _ => None,
         }
     }
@@ -93,6 +98,8 @@ pub fn parse_line(line: &str) -> Result<Vec<Instr>, String>
         {
             "emit" if chunk.len() >= 4 && chunk[2] == "copy" && chunk.len() == 4 =>
                 Instr::EmitCopy { t: chunk[1].to_string(), src: chunk[3].to_string() },
+            "emit" if chunk.len() == 4 && chunk[2] == "copyp" =>
+                Instr::EmitCopyP { t: chunk[1].to_string(), src: chunk[3].to_string() },
             "emit" if chunk.len() == 4 && chunk[2] == "const" =>
                 Instr::EmitConst { t: chunk[1].to_string(), tag: chunk[3].to_string() },
             "emit" if chunk.len() >= 4 && chunk[2] == "mix" =>
@@ -134,6 +141,14 @@ pub fn run_line<F: CmdFs>(fs: &mut F, line: &str) -> (i32, String)
                 match fs.read(&src)
                 {
                     Some(c) => if !fs.write(&t, &c) { return (1, format!("cannot write {}", t)); },
+                    None => return (1, format!("{}: No such file", src)),
+                }
+            }
+            Instr::EmitCopyP { t, src } =>
+            {
+                match fs.read(&src)
+                {
+                    Some(c) => { if !fs.write(&t, &c) { return (1, format!("cannot write {}", t)); } fs.copy_mtime(&src, &t); }
                     None => return (1, format!("{}: No such file", src)),
                 }
             }
